@@ -767,6 +767,8 @@ class Interp:
             return self.call_lambda(fid, e, env)
         if fid in self.F.by_fid:
             return self.call_repo(self.F.by_fid[fid], e, env)
+        if "obj" not in e and nm in ("sqrt", "abs", "fabs", "floor", "isfinite", "max", "min"):
+            return self.std_call(e, env, c)
         raise Unsupported("call to %s (line %s)" % (c.get("q"), e.get("line")))
 
     def bind_param(self, p, a, env):
